@@ -16,6 +16,7 @@ import (
 	"verifharness/internal/common"
 	"verifharness/internal/coqfmt"
 	"verifharness/internal/load"
+	"verifharness/internal/userrules"
 )
 
 // Workspace writes the multi-package workspace (regexps, sort.Slice, generics, size-based constructs) under base;
@@ -218,6 +219,54 @@ func Run(tier string, seed int64, outDir string) *common.Meta {
 				}
 			}
 		}
+	}
+	// 2c. concurrent passes sharing the user rule files: the dynamic ruleguard checker (rules loaded by every pass's
+	// constructor) through the parallel driver, repeatedly from a cold process, against the sequential driver and the CLI
+	{
+		uw := filepath.Join(outDir, "ws4ur")
+		os.RemoveAll(uw)
+		defer os.RemoveAll(uw)
+		rdir := userrules.Workspace(uw)
+		// more packages than the shared workspace has, so that a first wave of passes really overlaps
+		for i := 0; i < 12; i++ {
+			p := fmt.Sprintf("extra%02d", i)
+			common.WriteFile(filepath.Join(uw, p, "a.go"), "package "+p+"\n\nfunc F(IN int, s string, xs []int) int {\n\tif len(s) == 0 {\n\t\tprintln(\"empty\")\n\t}\n\tif cap(xs) == 0 {\n\t\tIN = IN\n\t}\n\treturn IN\n}\n")
+		}
+		rl := "-@ruleguard.rules=" + filepath.Join(rdir, "good.go") + "," + filepath.Join(rdir, "second.go")
+		run := func(exe string, xenv []string, args ...string) ([]string, bool) {
+			_, stderr, _, err := common.RunSplit(600*time.Second, uw, append(append([]string(nil), env...), xenv...), filepath.Join(bin, exe), args...)
+			runs++
+			if err != nil {
+				meta.Fail("C04/"+exe+"/hang", err.Error(), args)
+				return nil, false
+			}
+			if strings.Contains(stderr, "WARNING: DATA RACE") {
+				meta.Fail("C04/"+exe+"/data-race", fmt.Sprintf("%s %v with user rule files reports a data race: %s", exe, args, raceExcerpt(stderr)), map[string]interface{}{"args": args, "report": raceExcerpt(stderr)})
+				return nil, false
+			}
+			ls := lines(stderr)
+			sort.Strings(ls)
+			return ls, true
+		}
+		seqAn, ok := run("go-critic-analysis-race", []string{"GOMAXPROCS=2"}, "-enable=ruleguard", "-disable=", rl, "-debug=p", "./...")
+		reps := 3
+		if tier == "thorough" {
+			reps = 10
+		}
+		for i := 0; ok && i < reps; i++ {
+			par, ok2 := run("go-critic-analysis-race", []string{"GOMAXPROCS=16"}, "-enable=ruleguard", "-disable=", rl, "./...")
+			if ok2 && strings.Join(par, "\n") != strings.Join(seqAn, "\n") {
+				meta.Fail("C04/analyzer/user-rules-parallel-differs-from-sequential", fmt.Sprintf("go/analysis driver with user rule files: parallel run %d reports %d lines, the sequential driver (-debug=p) %d: %s", i+1, len(par), len(seqAn), firstDiff(strings.Join(seqAn, "\n"), strings.Join(par, "\n"))), map[string]interface{}{"args": []string{"-enable=ruleguard", "-disable=", rl, "./..."}, "workspace": "userrules workspace + 12 packages"})
+				break
+			}
+		}
+		c1, okc := run("go-critic-race", []string{"GOMAXPROCS=16"}, "check", "-enable=ruleguard", rl, "-concurrency=1", "./...")
+		if okc {
+			if c8, ok8 := run("go-critic-race", []string{"GOMAXPROCS=16"}, "check", "-enable=ruleguard", rl, "-concurrency=8", "./..."); ok8 && strings.Join(c1, "\n") != strings.Join(c8, "\n") {
+				meta.Fail("C04/go-critic/output-depends-on-concurrency", "user rule files: -concurrency=8 differs from -concurrency=1: "+firstDiff(strings.Join(c1, "\n"), strings.Join(c8, "\n")), nil)
+			}
+		}
+		meta.Distribution["user_rule_lines_sequential_driver"] = len(seqAn)
 	}
 	anOut := map[int][]string{}
 	for i, r := range raceRuns {
